@@ -21,6 +21,7 @@ mod cvt;
 mod c03;
 mod zipx;
 mod pos;
+mod rlc;
 
 pub use rng::Rng;
 
@@ -53,6 +54,7 @@ fn area(name: &str) -> Box<dyn Area> {
         "c03f" => Box::new(c03::C03f),
         "zip" => Box::new(zipx::Zipx),
         "pos" => Box::new(pos::Pos),
+        "rlc" => Box::new(rlc::Rlc),
         _ => {
             eprintln!("unknown area {}", name);
             std::process::exit(2)
